@@ -1,3 +1,4 @@
+import Dbg.Model.Boom
 import Dbg.Driver.C09
 import Dbg.Model.Pipeline
 /-! C04 (sharded = direct), C06 (strand symmetry / separation), C19 (index construction is schedule independent). -/
@@ -132,6 +133,15 @@ end Drv.C06
 namespace Drv.C19
 open Compress Graph Drv.Gr Drv.C03
 
+/-- one index map as the hook reports it: `key=value=slot,...` in slot order -/
+def parseMap (t : String) : R (List Seq × List Nat × List (Option Nat)) :=
+  if t == "-" then pure ([], [], []) else do
+    let items ← (t.splitOn ",").mapM fun it =>
+      match it.splitOn "=" with
+      | [k, v, i] => do pure (← digits k, ← nat v, i.toNat?)
+      | _ => throw "bad-layout"
+    pure (items.map (·.1), items.map (·.2.1), items.map (·.2.2))
+
 /-- `finish <K> <stranded> <threads> <nodes> <probes>`: answer `serial=<edges>#<links>|parallel=<edges>#<links>|runs=<n>|same=<0/1>`;
     `big …`: large graphs, implementation against implementation only -/
 def handle (args : List String) (impl : String) : R Ans :=
@@ -144,13 +154,19 @@ def handle (args : List String) (impl : String) : R Ans :=
     let links := probes.map fun (km, d) => match findLink g km d with | some e => showEdge e | none => "none"
     let q := s!"{showAllEdges (allEdges g)}#{if links.isEmpty then "-" else ",".intercalate links}"
     let runs := (field impl "runs").getD "?"
-    let model := s!"serial={q}|parallel={q}|runs={runs}|same=1"
+    let lay := (field impl "layout").getD "?"
+    let model := s!"serial={q}|parallel={q}|runs={runs}|same=1|layout={lay}"
+    -- the slot layout of the real maps (serial L, R; parallel L, R) meets the hypotheses of `Boom.C19_builders_agree`
+    let maps ← (lay.splitOn "/").mapM parseMap
+    let layoutFine := maps.length == 4 && (maps.zip [Walk.Dir.L, Walk.Dir.R, Walk.Dir.L, Walk.Dir.R]).all fun ((ks, vs, ids), side) =>
+      Boom.layoutOK g side ks vs && Boom.slotsOK ks ids
     -- exactness of lookups: a k-mer is found as a node end exactly when some node starts or ends with it
     let exact := probes.all fun (km, d) =>
       let found := (findLink g km d).isSome
       let want := ns.any (fun n => termKmer K n.seq d.flip == km) || (!st && ns.any (fun n => termKmer K n.seq d == Compress.rc km))
       found == want
-    pure { model, verdict := if impl ≠ model then "FAIL:parallel/serial/model-answers-differ" else if ¬ exact then "FAIL:lookup-not-exact" else "ok" }
+    pure { model, verdict := if impl ≠ model then "FAIL:parallel/serial/model-answers-differ" else if ¬ exact then "FAIL:lookup-not-exact"
+                             else if ¬ layoutFine then "FAIL:index-slots-do-not-hold-the-node-ends" else "ok" }
   | "big" :: _ => pure { model := impl, verdict := if impl.startsWith "same=1" then "ok" else s!"FAIL:parallel-and-serial-index-differ({impl})" }
   | _ => throw "bad-request"
 
